@@ -62,6 +62,10 @@ def dec(v):
             return [dec(x) for x in v["v"]]
         if v["t"] == "dict":
             return {k: dec(x) for k, x in v["v"].items()}
+        if v["t"] == "npfloat":
+            return np.float64(v["v"])
+        if v["t"] == "npint":
+            return np.int64(v["v"])
     return copy.deepcopy(v)
 
 
@@ -131,7 +135,7 @@ def draw_args(rng, cls):
         return rng.random() < p
     if cls in PRE:
         if maybe():
-            a["orient_to_degrees_from_north"] = rng.choice([0.0, 15.0, None, 270.5])
+            a["orient_to_degrees_from_north"] = rng.choice([0.0, 15.0, None, 270.5, {"t": "npfloat", "v": 30.0}, 90])
         if maybe():
             lo = rng.choice([None, 0.1, 0.5, awkward(rng)])
             hi = rng.choice([None, 20.0, 30.0])
@@ -171,12 +175,12 @@ def draw_args(rng, cls):
         if maybe():
             a["method_to_combine_horizontals"] = rng.choice(["single_azimuth", "directional_energy"])
         if maybe():
-            a["azimuth_in_degrees"] = rng.choice([0.0, 33.3, 90.0, awkward(rng)])
+            a["azimuth_in_degrees"] = rng.choice([0.0, 33.3, 90.0, awkward(rng), {"t": "npfloat", "v": 12.5}, 45])
     if cls in ("HvsrTraditionalRotDppProcessingSettings", "HvsrAzimuthalProcessingSettings") and maybe(0.8):
         k = rng.randint(2, 4) if rng.random() < 0.8 else 1
         a["azimuths_in_degrees"] = seq(rng, [float(x) for x in sorted(rng.sample(range(0, 180, 5), k))])
     if cls == "HvsrTraditionalRotDppProcessingSettings" and maybe():
-        a["ppth_percentile_for_rotdpp_computation"] = rng.choice([0.0, 50.0, 84.0])
+        a["ppth_percentile_for_rotdpp_computation"] = rng.choice([0.0, 50.0, 84.0, {"t": "npfloat", "v": 16.0}, 50])
     return a
 
 
